@@ -8,6 +8,6 @@ for d in seeded/*/; do
   id=$(basename "$d")
   prop=$(python3 -c "import json;print(json.load(open('$d/meta.json'))['property'])")
   if [ $# -gt 0 ]; then case " $* " in *" $prop "*) ;; *) continue;; esac; fi
-  n=$(./tools/try_seed.py "$d/patch.diff" "$prop" --seeds 0,1 | grep -c '"rc": 1')
+  n=$(./tools/try_seed.py "$d/patch.diff" "$prop" --seeds ${RECHECK_SEEDS:-0,1} | grep -c '"rc": 1')
   echo "$id $prop caught_runs=$n"
 done
